@@ -49,7 +49,9 @@ CONSTANTS
   SignerSets,  \* sets of Nodes \cup {"ALPHA","CMT","M1","X"}
   IRSets,      \* Inner Ring lists offered to ir.set (non-empty sets of Nodes)
   Acts,        \* action families enabled in Next: subset of {"rep","aud","ir","est","nm","cn","ntf","id","cfg"}
-  Dev          \* deviation switches: {"PrefixAlias"} = listings select by byte prefix (the code)
+  Dev          \* deviation switches: "PrefixAlias" = selections are made by byte prefix (the code);
+               \* "Exact:<site>" = the listing <site> nevertheless filters out keys of other epochs (what the
+               \* partial repair notes/reports/stores-fix-1.diff does for aud.listByEpoch and est.list)
 
 VARIABLES
   U,    \* universe (never changes): [qe, peer, cid, ah, eh, owners, keys, cfgkeys]
@@ -92,6 +94,8 @@ EstId(e, c)     == VMInt(e) \o U.cid[c]                  \* "cnr" || ... : the i
 
 \* storage.Find(prefix) / the selection the property demands
 Hit(prefix, key, same) == IF Alias THEN IsPrefix(prefix, key) ELSE same
+\* the same for the four listings by epoch, which can be switched to exact individually
+HitAt(site, prefix, key, same) == IF Alias /\ ("Exact:" \o site) \notin Dev THEN IsPrefix(prefix, key) ELSE same
 
 -----------------------------------------------------------------------------
 (***************************************************************************)
@@ -116,12 +120,12 @@ ApiOf(s) ==
     repGet   |-> repGet,
     repGetID |-> repGet,           \* Get(e, p) = GetByID(storageID(e, p))
     repList  |-> {[q |-> y[1], e |-> y[2].e, p |-> y[2].p] :
-                    y \in {z \in QE \X s.repC : Hit(VMInt(z[1]), RepId(z[2].e, z[2].p), z[2].e = z[1])}},
+                    y \in {z \in QE \X s.repC : HitAt("rep.listByEpoch", VMInt(z[1]), RepId(z[2].e, z[2].p), z[2].e = z[1])}},
     \* ---- audit
     audGet   |-> {x \in s.aud : x.e \in QE},     \* Get(id) is an exact storage.Get
     audList  |-> {[e |-> x.e, c |-> x.c, n |-> x.n] : x \in s.aud},
     audByE   |-> {[q |-> y[1], e |-> y[2].e, c |-> y[2].c, n |-> y[2].n] :
-                    y \in {z \in QE \X s.aud : Hit(VMInt(z[1]), AudId(z[2].e, z[2].c, z[2].n), z[2].e = z[1])}},
+                    y \in {z \in QE \X s.aud : HitAt("aud.listByEpoch", VMInt(z[1]), AudId(z[2].e, z[2].c, z[2].n), z[2].e = z[1])}},
     audByC   |-> {[q |-> y[1], qc |-> y[2], e |-> y[3].e, c |-> y[3].c, n |-> y[3].n] :
                     y \in {z \in QE \X CS \X s.aud :
                              Hit(VMInt(z[1]) \o U.cid[z[2]], AudId(z[3].e, z[3].c, z[3].n), z[3].e = z[1] /\ z[3].c = z[2])}},
@@ -131,12 +135,12 @@ ApiOf(s) ==
                                  z[4].e = z[1] /\ z[4].c = z[2] /\ z[4].n = z[3])}},
     \* ---- size estimations
     estAll   |-> {[q |-> y[1], e |-> y[2].e, c |-> y[2].c, n |-> y[2].n, f |-> y[2].f, sz |-> y[2].sz] :
-                    y \in {z \in QE \X s.est : Hit(VMInt(z[1]), EstSfx(z[2].e, z[2].c, z[2].n), z[2].e = z[1])}},
+                    y \in {z \in QE \X s.est : HitAt("est.iterateAll", VMInt(z[1]), EstSfx(z[2].e, z[2].c, z[2].n), z[2].e = z[1])}},
     estIter  |-> {[q |-> y[1], qc |-> y[2], f |-> y[3].f, sz |-> y[3].sz] :
                     y \in {z \in QE \X CS \X s.est :
                              Hit(EstId(z[1], z[2]), EstSfx(z[3].e, z[3].c, z[3].n), z[3].e = z[1] /\ z[3].c = z[2])}},
     estList  |-> {[q |-> y[1], e |-> y[2].e, c |-> y[2].c] :
-                    y \in {z \in QE \X s.est : Hit(VMInt(z[1]), EstSfx(z[2].e, z[2].c, z[2].n), z[2].e = z[1])}},
+                    y \in {z \in QE \X s.est : HitAt("est.list", VMInt(z[1]), EstSfx(z[2].e, z[2].c, z[2].n), z[2].e = z[1])}},
     \* GetContainerSize(id of (e,c)): CID = last 32 bytes of the id, estimations = Find(id)
     estGet   |-> {[e |-> y[1], c |-> y[2], cid |-> y[2], f |-> y[3].f, sz |-> y[3].sz] :
                     y \in {z \in QE \X CS \X s.est :
